@@ -90,7 +90,9 @@ def context_rule(repo: Repo, rep: Report, rid: str) -> None:
                 sl = norm(x.targets[0].slice)
                 if "field._name" in sl or "field__name" in sl:
                     result_names.add(x.targets[0].value.id)
-        result_names -= {"sizes", "s"}
+        from ..util import in_progress_result_names as _iprn
+
+        result_names = (result_names & _iprn(fi.node)) or (result_names - {"sizes", "s"})
         is_walker = bool(result_names)
         for c in ast.walk(fi.node) if fi in tf else walk_body(fi.node.body):
             if not (isinstance(c, ast.Call) and isinstance(c.func, ast.Attribute) and c.func.attr in READ_SLOTS):
@@ -167,8 +169,17 @@ def eof_rule(repo: Repo, rep: Report, rid: str) -> None:
                         return True
         return False
 
-    ok = bool(arms) and eof_loop(arms[0].ast.body)
-    rep.check(ok, rid, f"{d.key}:eof-loop", "default EOF mode loops while not _is_eof(stream)", "the default EOF mode no longer loops on 'not _is_eof(stream)'", d.loc())
+    from ..folds import fold_generic_read_array
+
+    gfold = fold_generic_read_array(repo)
+    if gfold is not None:
+        bad = gfold["bad"]
+        rep.check(not bad, rid, f"{d.key}:eof-loop", f"folded over {gfold['cases']} (length, start, count) cases: counted reads, whole elements to the end, nothing consumed by the probe",
+                  (f"MetaType._read_array on a stream of {bad[0][0]} bytes at {bad[0][1]} with count {bad[0][2]}: got {bad[0][3]}, stream left at {bad[0][4]} {bad[0][5]}") if bad else "",
+                  d.loc())
+    else:
+        ok = bool(arms) and eof_loop(arms[0].ast.body)
+        rep.check(ok, rid, f"{d.key}:eof-loop", "default EOF mode loops while not _is_eof(stream)", "the default EOF mode no longer loops on 'not _is_eof(stream)'", d.loc())
     # Packed EOF: whole elements only
     p = repo.func("types/packed.py", "Packed._read_array")
     fl = [x for x in walk_body(p.node.body) if isinstance(x, ast.BinOp) and isinstance(x.op, ast.FloorDiv) and norm(x.right) == f"{p.self_name}.size"]
